@@ -62,9 +62,11 @@ func diffSnap(a, b snap, allowGrad bool) string {
 	if a.edges != b.edges {
 		return fmt.Sprintf("back edges changed %d -> %d", a.edges, b.edges)
 	}
-	if sa, sb := stripFlagFields(a.scalars), stripFlagFields(b.scalars); sa != sb {
-		return fmt.Sprintf("private bookkeeping fields changed: %s -> %s", sa, sb)
-	}
+	// a.scalars / b.scalars (reflective dump of every other bookkeeping field)
+	// are recorded for diagnosis only: a memoised value or a counter that
+	// returns to its resting state is not a change of shape, elements,
+	// gradient or tracking, so it is not judged here (unsynchronised writes
+	// to shared tensors are the race pass's subject in C20).
 	if !allowGrad {
 		if a.dirty != b.dirty {
 			return fmt.Sprintf("spent flag changed %v -> %v", a.dirty, b.dirty)
